@@ -417,6 +417,13 @@ def link_words(ctx):
                           'frozenset')) and
         _allocs_ret(F, lf) & {a for a in e.recv() if a.startswith('alloc:')}
         for e in adds)
+    if not adds:
+        # no accumulator: the words are returned as one expression
+        # (chain.from_iterable over a per-option helper, a comprehension)
+        r_ = F.returns(lf)
+        ok = has_call(r_, '_link_lib') and not any(
+            has_call(r_, x) for x in ('uniques', 'set', 'if', 'filter',
+                                      'sorted', 'frozenset', 'fromkeys'))
     ctx.ob(R, 'CcLinker.lib_flags|extend(_link_lib(...))', ok, lf.node,
            'the words of a library are filtered / de-duplicated before '
            'they reach the link line')
